@@ -86,9 +86,10 @@ type World struct {
 	closed            bool // close() ran (or the case disposed of the instance itself)
 	apiH              *apiHandle
 	// options
-	allowNullData bool
-	allowStaking  bool
-	allowBinding  bool
+	allowNullData  bool
+	allowZeroValue bool // blocks may pay value-0 outputs to wallet addresses and spend them (C01)
+	allowStaking   bool
+	allowBinding   bool
 }
 
 func (w *World) logf(format string, a ...interface{}) {
@@ -295,6 +296,9 @@ func (w *World) pickDest(t *rapid.T, height uint64, hasBindingIn bool, budget in
 	if w.allowNullData {
 		kinds = append(kinds, "nulldata", "multisig")
 	}
+	if w.allowZeroValue && len(w.wallets) > 0 {
+		kinds = append(kinds, "wallet-zero")
+	}
 	if w.allowStaking && budget >= int64(consensus.MinStakingValue) {
 		kinds = append(kinds, "staking", "staking")
 	}
@@ -325,6 +329,16 @@ func (w *World) pickDest(t *rapid.T, height uint64, hasBindingIn bool, budget in
 		pa := m.payable()
 		a := pa[rapid.IntRange(0, len(pa)-1).Draw(t, "destAddr")]
 		return sim.StdScript(a.Hash), 1, false
+	case "wallet-zero":
+		// an output of value 0 paid to a wallet address: valid by consensus (only negative values are
+		// refused), a coin of the wallet like any other - and later transactions spend it
+		m := w.wallets[rapid.IntRange(0, len(w.wallets)-1).Draw(t, "destWallet")]
+		pa := m.payable()
+		if len(pa) == 0 {
+			return sim.StdScript(w.strangers[0]), 1, false
+		}
+		w.flag("zero-value-output-to-wallet")
+		return sim.StdScript(pa[rapid.IntRange(0, len(pa)-1).Draw(t, "destAddr")].Hash), 0, false
 	case "stranger":
 		return sim.StdScript(w.strangers[rapid.IntRange(0, len(w.strangers)-1).Draw(t, "stranger")]), 1, false
 	case "multisig":
@@ -386,7 +400,7 @@ func spendableAt(c *Coin, next uint64) bool {
 func (w *World) genTx(t *rapid.T, view *utxoView, next uint64, prefer func(*Coin) bool) *wire.MsgTx {
 	var cands []*Coin
 	for _, c := range view.live() {
-		if spendableAt(c, next) && c.Value > 0 && w.coinAllowed(c) {
+		if spendableAt(c, next) && (c.Value > 0 || (w.allowZeroValue && c.Class == clsStd)) && w.coinAllowed(c) {
 			cands = append(cands, c)
 		}
 	}
